@@ -40,7 +40,7 @@ def tset(xs):
     return "{" + ", ".join('"%s"' % x for x in xs) + "}"
 
 
-def cfg_gen(maxnodes, maxdepth, kinds, fors, ens, vars_, xs, subs, poison, roots, uvs, shadow=("fresh",), invs=True):
+def cfg_gen(maxnodes, maxdepth, kinds, fors, ens, vars_, xs, subs, poison, roots, uvs, shadow=("fresh",), spell=("canon",), invs=True):
     return """SPECIFICATION GenSpec
 CONSTANTS
   MaxNodes = %d
@@ -55,10 +55,11 @@ CONSTANTS
   RootKinds = %s
   UvKinds = %s
   ShadowKinds = %s
+  SpellKinds = %s
 %s
 CHECK_DEADLOCK FALSE
 """ % (maxnodes, maxdepth, tset(kinds), tset(fors), tset(ens), tset(vars_), tset(xs), tset(subs),
-       "TRUE" if poison else "FALSE", tset(roots), tset(uvs), tset(shadow), ("INVARIANTS " + INVS) if invs else "")
+       "TRUE" if poison else "FALSE", tset(roots), tset(uvs), tset(shadow), tset(spell), ("INVARIANTS " + INVS) if invs else "")
 
 
 def cfg_err(n, fails, shared):
@@ -92,17 +93,17 @@ SLICES_QUICK = [
     ("struct", 3, 2, ["agg", "task"], ["none", "lab", "le"], ["T", "F", "iteq"], ["none"], ["none"], [], False, ["flag"], ["none"]),
     # enabled expressions on variables of several levels, variable ranges, user variables
     ("vars", 3, 2, ["agg", "call"], ["none", "var"], ["T", "flagon"], ["none", "flagit"], ["none"], [], False,
-     ["both"], ["none", "flagoff"]),
+     ["both"], ["flagoff"]),
     # enabled expressions on an undefined variable (template error at stage 0)
     ("enerr", 3, 2, ["agg", "call"], ["none", "lab"], ["T", "flagon"], ["none"], ["none"], [], False, ["lst"], ["none"]),
     # the three kinds of ranges, defined / undefined / overridden / malformed range variable
     ("ranges", 2, 1, ["task"], ["lb", "be12", "be21", "var"], ["T", "itne"], ["none"], ["none"], [], False,
      ["both", "plain"], ["none", "lstb", "lstbad"]),
     # template errors: poisoned role, undefined variables, missing sub-workflow
-    ("poison", 3, 2, ["agg", "task", "inc"], ["none", "lab"], ["T", "iteq"], ["none"], ["none"], ["s4", "smissing"], True,
+    ("poison", 3, 2, ["agg", "task", "inc"], ["none", "lab"], ["T", "iteq"], ["none"], ["none"], ["smissing"], True,
      ["flag"], ["none"]),
     # includes, traits, constraints, channels
-    ("extras", 3, 2, ["task", "inc"], ["none", "lab"], ["T"], ["none"], ["none", "hook", "cons", "chan"], ["s2", "s5"], False,
+    ("extras", 3, 2, ["task", "inc"], ["none", "lab"], ["T"], ["none"], ["none", "hook", "cons", "chan"], ["s2", "s4", "s5"], False,
      ["flag"], ["none"]),
     # nested iterators whose inner range (range expression / begin / end) depends on the OUTER iteration variable:
     # per outer element a different inner range, of different lengths, one empty
@@ -115,6 +116,19 @@ SLICES_QUICK = [
     # constraints and nested ranges inside reference the variable
     ("shadowv", 3, 2, ["agg", "task"], ["none", "lab", "dep"], ["T"], ["none", "itx"], ["cons"], [], False,
      ["itdef", "itcards"], ["none"]),
+]
+
+SPELLINGS = ["lead", "trail", "both", "block", "upper", "cap", "one", "onesp"]
+SLICES_QUICK += [
+    # metamorphic: the same templates with `enabled` (literal and expression) / `critical` spelled with surrounding
+    # whitespace, as a block scalar (trailing newline), in upper / mixed case, as 1 / 0 - the tree must not depend on it
+    ("spell", 3, 2, ["agg", "task"], ["none", "lab"], ["T", "iteq"], ["none"], ["none"], [], False, ["flag"], ["none"],
+     ["fresh"], ["trail", "both", "block", "cap", "onesp"]),
+    ("spell2", 2, 1, ["task", "call"], ["none", "lab"], ["T", "F", "flagon", "iteq"], ["none"], ["none", "hook"], [], False, ["flag"],
+     ["none"], ["fresh"], SPELLINGS),
+    # begin..end ranges that are inverted by two and more, have negative bounds, equal bounds; bounds from an outer variable
+    ("invr", 3, 2, ["agg", "task"], ["be20", "be3N", "beN1", "beNN", "be11", "b2E", "beE"], ["T"], ["none"], ["none"], [], False,
+     ["flag"], ["none"]),
 ]
 
 SLICES_THOROUGH = [
@@ -139,14 +153,20 @@ SLICES_THOROUGH = [
      ["cards"], ["none"], ["same", "fresh"]),
     ("shadowv4", 4, 3, ["agg", "task"], ["none", "lab"], ["T"], ["none", "itx"], ["cons"], [], False,
      ["itcards"], ["none"], ["same", "fresh"]),
+    ("spell3", 3, 2, ["agg", "task", "call"], ["none", "lab"], ["T", "flagon", "iteq"], ["none"], ["none"], [], False,
+     ["flag"], ["none"], ["fresh"], ["trail", "both", "block", "cap", "onesp"]),
+    ("spelli", 2, 1, ["inc", "call", "task"], ["none", "lab"], ["T", "F", "flagon", "iteq", "itne"], ["none"], ["none", "hook"],
+     ["s1", "s2", "s3"], False, ["flag", "plain"], ["none"], ["fresh"], ["canon"] + SPELLINGS),
+    ("invr3", 3, 2, ["agg", "task"], ["be02", "be20", "be3N", "beN1", "beNN", "be11", "b2E", "beE", "bBe"], ["T", "iteq"], ["none"],
+     ["none"], [], False, ["flag"], ["none"]),
     ("incl3", 3, 2, ["agg", "inc"], ["none", "lb"], ["T", "iteq"], ["none", "flagit"], ["none"], ["s1", "s2", "s3", "s5"], False,
      ["flag"], ["none", "flagoff"]),
 ]
 
 # random larger templates (tlc -simulate): everything allowed
-SIM = (7, 3, ALLK, ["none", "lab", "labc", "lb", "le", "be12", "be21", "be02", "var", "dep", "beE", "bBe"], ["T", "F", "flagon", "flagoff", "iteq", "itne"],
+SIM = (7, 3, ALLK, ["none", "lab", "labc", "lb", "le", "be12", "be21", "be02", "var", "dep", "beE", "bBe", "be20", "beN1", "be3N", "b2E", "be11"], ["T", "F", "flagon", "flagoff", "iteq", "itne"],
        ["none", "flagoff", "flagit", "itx"], ["none", "hook", "cons", "chan"], ["s1", "s2", "s3", "s4", "s5", "smissing"], True,
-       ["plain", "flag", "lst", "both", "cards", "cardsab", "itvar", "itdef", "itcards"], ["none", "flagoff", "lstb", "lstbad"], ["fresh", "same"])
+       ["plain", "flag", "lst", "both", "cards", "cardsab", "itvar", "itdef", "itcards"], ["none", "flagoff", "lstb", "lstbad"], ["fresh", "same"], ["canon"] + SPELLINGS)
 
 
 def ptlc(ctx, tag, module, cfg_text, workers=2, extra=None, timeout=1200):
@@ -203,6 +223,13 @@ def states_from_dump(path):
 
 def has_for(T):
     return any(n["for"] for n in T) or any(n["k"] == "inc" and n["sub"] == "s5" for n in T)
+
+
+def may_err(T):
+    """Templates in which some role instance may fail (poison, include, expressions on variables, ranges from variables):
+    the ones for which the gated error hand-over schedules of the iterator children are worth running."""
+    return any(n["ps"] or n["k"] == "inc" or n["en"][0] in ("eq", "ne") or any(v[1] == "ref" for v in n["vs"]) or
+               (n["for"] and (n["for"][0]["t"] in ("var", "dep") or n["for"][0]["bv"] or n["for"][0]["ev"])) for n in T)
 
 
 def shape_of(T):
@@ -289,7 +316,7 @@ def run(ctx):
             rs_.shuffle(rest)
             return list(keep) + rest[:max(0, n - len(keep))]
         sim = (SIM[0], SIM[1], SIM[2], pick(SIM[3], 6, ["none"]), pick(SIM[4], 4, ["T"]), pick(SIM[5], 3, ["none"]),
-               pick(SIM[6], 3, ["none"]), pick(SIM[7], 3, []), SIM[8], pick(SIM[9], 3, []), pick(SIM[10], 2, ["none"]), SIM[11])
+               pick(SIM[6], 3, ["none"]), pick(SIM[7], 3, []), SIM[8], pick(SIM[9], 3, []), pick(SIM[10], 2, ["none"]), SIM[11], pick(SIM[12], 3, []))
     fut["sim"] = pool.submit(ptlc, ctx, "sim", "WorkflowLoadGen", cfg_gen(*sim, invs=False), 1,
                              ["-simulate", "file=sim/b,num=%d" % nsim, "-depth", str(SIM[0] + 1), "-seed", str(ctx.seed * 104729 + 17)])
     fut["build"] = pool.submit(ctx.build, "wfload")
@@ -323,9 +350,10 @@ def run(ctx):
     origin = {}
 
     def add_case(st, org):
-        key = json.dumps({"T": st["T"], "uv": st["uv"]}, sort_keys=True)
+        sp = st.get("sp", "canon")
+        key = json.dumps({"T": st["T"], "uv": st["uv"], "sp": sp}, sort_keys=True)
         if key not in cases:
-            cases[key] = {"T": st["T"], "uv": st["uv"]}
+            cases[key] = {"T": st["T"], "uv": st["uv"], "sp": sp}
             origin[key] = org
 
     subs = None
@@ -349,7 +377,7 @@ def run(ctx):
         os.remove(os.path.join(r.dir, "states.dump"))
     if ctx.replay:
         cases.clear()
-        add_case({"T": rp["T"], "uv": rp["uv"]}, "replay")
+        add_case({"T": rp["T"], "uv": rp["uv"], "sp": rp.get("sp", "canon")}, "replay")
     rs = fut["sim"].result()
     if rs.rc == 124:
         raise vlib.Inconclusive("TLC simulation timeout")
@@ -371,8 +399,8 @@ def run(ctx):
 
     scen = []
     for i, (key, c) in enumerate(cases.items()):
-        s = {"id": i + 1, "T": c["T"], "uv": c["uv"]}
-        if has_for(c["T"]):
+        s = {"id": i + 1, "T": c["T"], "uv": c["uv"], "sp": c["sp"]}
+        if has_for(c["T"]) and may_err(c["T"]):
             s["sched"] = ["first:0", "first:1"]
         scen.append(s)
     by_id = {s["id"]: s for s in scen}
@@ -386,25 +414,63 @@ def run(ctx):
     ctx.write_ndjson(scn_file, [hdr] + scen)
     shards = max(1, min(nw, 16))
 
+    crashes = []
+
     def run_driver(binary, scn_path, tag, env=None, ok_codes=(0,)):
-        procs = []
-        for k in range(shards):
+        """Runs the shards of the driver in parallel.  A panic of the loader (possibly in one of its child goroutines) kills
+        the shard's process: the load in progress is read from the shard's -cur file, recorded as a crashed outcome of that
+        case (the case is not continued), and the shard is restarted with -resume."""
+        e = dict(os.environ)
+        e.update(env or {})
+
+        def start(k, resume):
             tf = ctx.path("trace_%s_%d.ndjson" % (tag, k))
-            e = dict(os.environ)
-            e.update(env or {})
-            procs.append((tf, subprocess.Popen([binary, "-scenarios", scn_path, "-trace", tf, "-shard", str(k), "-shards", str(shards),
-                                                "-seed", str(ctx.seed)], env=e, stdout=subprocess.PIPE, stderr=subprocess.PIPE, text=True)))
+            cmd = [binary, "-scenarios", scn_path, "-trace", tf, "-cur", tf + ".cur", "-shard", str(k), "-shards", str(shards),
+                   "-seed", str(ctx.seed)] + (["-resume"] if resume else [])
+            return tf, subprocess.Popen(cmd, env=e, stdout=subprocess.PIPE, stderr=subprocess.PIPE, text=True)
+
+        procs = [start(k, False) for k in range(shards)]
         out_file = ctx.path("trace_%s.ndjson" % tag)
         errs = []
+        t_end = time.time() + 2400
         with open(out_file, "w") as out:
-            for tf, p in procs:
-                try:
-                    so, se = p.communicate(timeout=2400)
-                except subprocess.TimeoutExpired:
-                    p.kill()
-                    raise vlib.Inconclusive("wfload timeout")
-                if p.returncode not in ok_codes:
-                    raise vlib.Inconclusive("wfload failed rc=%d: %s" % (p.returncode, vlib.tail(se or so, 30)))
+            for k in range(shards):
+                tf, p = procs[k]
+                ncrash = 0
+                while True:
+                    try:
+                        so, se = p.communicate(timeout=max(1, t_end - time.time()))
+                    except subprocess.TimeoutExpired:
+                        p.kill()
+                        raise vlib.Inconclusive("wfload timeout")
+                    m = re.search(r"(?m)^(panic: .*|fatal error: .*)$", se or "")
+                    if p.returncode == 2 and m and os.path.exists(tf + ".cur"):
+                        try:
+                            with open(tf + ".cur") as fh:
+                                cur = json.loads(fh.read())
+                            sc_ = by_id[cur["scn"]]
+                        except (ValueError, KeyError) as ex:
+                            raise vlib.Inconclusive("the loader crashed (%s) but the load in progress could not be read from %s: %s" % (
+                                m.group(1)[:100], tf + ".cur", ex))
+                        msg = m.group(1)[:160]
+                        goro = re.search(r"(?m)^goroutine \d+ \[running\]:\n(\S+)\(", se)
+                        where = re.findall(r"(?m)^(github.com/AliceO2Group/Control/[^\n]+)\([^()\n]*\)$", se)
+                        rec = {"ev": "Case", "scn": cur["scn"], "T": sc_["T"], "uv": sc_["uv"], "sp": sc_["sp"],
+                               "outs": [{"ok": False, "hash": "", "tree": [], "emsg": "loader crashed: " + msg, "crashed": True}],
+                               "runs": [cur["run"] + [1, 0]], "seq": 0}
+                        with open(tf, "a") as fh:
+                            fh.write(json.dumps(rec, separators=(",", ":")) + "\n")
+                        crashes.append({"scn": cur["scn"], "run": cur["run"], "panic": msg,
+                                        "in": (where[0].replace("github.com/AliceO2Group/Control/", "") if where else
+                                               (goro.group(1) if goro else "?")), "phase": tag})
+                        ncrash += 1
+                        if ncrash > 400:
+                            raise vlib.Inconclusive("the loader crashed on more than 400 cases of one shard: %s" % msg)
+                        tf, p = start(k, True)
+                        continue
+                    if p.returncode not in ok_codes:
+                        raise vlib.Inconclusive("wfload failed rc=%d: %s" % (p.returncode, vlib.tail(se or so, 30)))
+                    break
                 errs.append(se)
                 with open(tf) as fh:
                     for line in fh:
@@ -412,6 +478,7 @@ def run(ctx):
                 os.remove(tf)
         return out_file, "".join(errs)
 
+    ctx.extra["loader_crashes"] = crashes
     trace_file, _ = run_driver(binp, scn_file, "main")
     lines = ctx.read_ndjson(trace_file)
     if len(lines) != len(scen):
@@ -477,6 +544,17 @@ def judge(ctx, viol, drift, by_scn, by_id, origin, keys, phase):
     flagged = {}
     for v in viol:
         inv, scn, line, det = v[1], v[2], v[3], v[4]
+        if inv == "LoaderSurvives":
+            x = by_scn.get(scn, {})
+            out = x["outs"][det[0] - 1]
+            run = x["runs"][0]
+            cr = next((c for c in ctx.extra.get("loader_crashes", []) if c["scn"] == scn and c["phase"] == phase), {})
+            flagged.setdefault(scn, set()).add("loader-crash")
+            ctx.add_violation({"inv": "LoaderSurvives", "cause": "unknown", "pattern": "loader crashed", "panic": out["emsg"],
+                               "in": cr.get("in", "?"), "switches": "%d%d%d" % (run[0], run[1], run[2]), "sched": run[4], "scn": scn,
+                               "phase": phase, "spelling": x.get("sp", "canon"), "origin": origin.get(keys[scn - 1], "?")},
+                              replay_obj={"T": x["T"], "uv": x["uv"], "sp": x.get("sp", "canon"), "outcome": out, "runs": x["runs"]})
+            continue
         if inv not in ("Spec", "AllOrNothing"):
             continue
         x = by_scn.get(scn, {})
@@ -498,7 +576,8 @@ def judge(ctx, viol, drift, by_scn, by_id, origin, keys, phase):
                                                                        ("error-in-enabled-expression" if cause == DEV_MASK else "?")),
                "switches": "all" if len(sw) == 8 else ",".join(sw), "scheds": sorted({r[4] for r in runs}), "scn": scn, "phase": phase,
                "origin": origin.get(keys[scn - 1], "?")}
-        ctx.add_violation(sig, replay_obj={"T": T, "uv": x["uv"], "outcome": out, "all_outcomes": x["outs"], "runs": runs[:12]})
+        sig["spelling"] = x.get("sp", "canon")
+        ctx.add_violation(sig, replay_obj={"T": T, "uv": x["uv"], "sp": x.get("sp", "canon"), "outcome": out, "all_outcomes": x["outs"], "runs": runs[:12]})
     for v in viol:
         inv, scn, line, det = v[1], v[2], v[3], v[4]
         if inv != "Determinism":
@@ -513,4 +592,5 @@ def judge(ctx, viol, drift, by_scn, by_id, origin, keys, phase):
             continue
         ctx.add_violation({"inv": "Determinism", "cause": "unknown", "scn": scn, "phase": phase, "outcomes": nouts,
                            "origin": origin.get(keys[scn - 1], "?")},
-                          replay_obj={"T": x.get("T"), "uv": x.get("uv"), "all_outcomes": x.get("outs"), "runs": x.get("runs")})
+                          replay_obj={"T": x.get("T"), "uv": x.get("uv"), "sp": x.get("sp", "canon"), "all_outcomes": x.get("outs"),
+                                      "runs": x.get("runs")})
